@@ -105,6 +105,18 @@ func init() {
 		"strings.ToLower":   intrStringsToLower,
 		"strings.Split":     intrStringsSplit,
 		"strings.TrimSpace": intrStringsTrimSpace,
+		"net/url.Parse": func(ex *Exec, fn *ssa.Function, a []Value, fr *Frame) Value {
+			// an opaque *url.URL per call, labelled with the (concrete) address
+			g, ok := ex.goString(a[0].(*StringV))
+			if !ok {
+				panic(unsupported("url.Parse of a symbolic string"))
+			}
+			pt := fn.Signature.Results().At(0).Type().(*types.Pointer)
+			o := ex.newObject(pt.Elem(), ex.zero(pt.Elem()), "url:"+g)
+			o.Name = g
+			return TupleV{&Pointer{Obj: o}, &IfaceV{}}
+		},
+		"math/rand.Uint32": func(ex *Exec, fn *ssa.Function, a []Value, fr *Frame) Value { return ex.freshVar("rand.Uint32", 32) },
 		"strconv.Atoi":      intrAtoi,
 		"strconv.Itoa":      intrItoa,
 		"bytes.Join":        intrBytesJoin,
